@@ -24,7 +24,7 @@ R.fclause("C05", "t2-stage-key", "custom", "clematis/engine/stages/t2/core.py:t2
                       (("_t3cfg", "reflection"), "as above"), (("_rfcfg", "topk_snippets"), "as above")])
 
 # ---- T1 stage cache (process global _T1_CACHE), key built inside the per-graph closure
-R.fclause("C05", "t1-stage-key", "custom", "clematis/engine/stages/t1.py:t1_propagate.<locals>._t1_one_graph", fn=check_keycover,
+R.fclause(["C05", "C17"], "t1-stage-key", "custom", "clematis/engine/stages/t1.py:t1_propagate.<locals>._t1_one_graph", fn=check_keycover,
           key_var="ckey", cache_expr="cache", cfg_vars=["cfg_t1"],
           inputs=[("gid", "graph id"), ("edge_mult", "relation multipliers"),
                   ("radius_cap", "radius cap"), ("effective_iter_cap_layers", "layer cap"), ("effective_queue_budget", "pop budget"),
